@@ -148,7 +148,8 @@ class HippoLLSDBinaryParser(base_llsd.serde_binary.LLSDBinaryParser):
     def _parse_date(self):
         seconds = struct.unpack("<d", self._getc(8))[0]
         try:
-            return datetime.datetime.fromtimestamp(seconds, tz=datetime.timezone.utc)
+            # Naive UTC, like the XML and notation parsers give (and their formatters expect)
+            return datetime.datetime.fromtimestamp(seconds, tz=datetime.timezone.utc).replace(tzinfo=None)
         except OverflowError as exc:
             # A garbage seconds value can cause utcfromtimestamp() to raise
             # OverflowError: timestamp out of range for platform time_t
